@@ -307,7 +307,10 @@ class CompileLoop(Harness):
             r = orig(state, op, n_quantum, q_index, cregs)
             after = sess.n_outcomes if sess.symbolic else sess.rng_pos
             if hasattr(op, "c_register") and type(op).__name__ not in ("Input", "Output"):
-                drawn[(type(op).__name__, getattr(op, "control", getattr(op, "register", None)), op.c_register, len([k for k in drawn if k[0] == type(op).__name__]))] = (after - before, cregs[op.c_register])
+                rec = cregs[op.c_register]
+                if isinstance(rec, (float, np.floating)):
+                    rec = int(rec)  # concrete run: the classical register array is a float array
+                drawn[(type(op).__name__, getattr(op, "control", getattr(op, "register", None)), op.c_register, len([k for k in drawn if k[0] == type(op).__name__]))] = (after - before, rec)
             return r
 
         comp.compile_one_gate = spy
